@@ -204,3 +204,37 @@ __CPROVER_assigns(g_exit_next, g_seq, g_exc, g_cleared)                         
 __CPROVER_ensures(!g_exc ==> (g_exit_next == nr_regions && g_seq == 2))                                      /*@ob C02.exit-cascade-substates-then-machine-then-history */
 __CPROVER_ensures(!g_exc ==> (g_cleared == !g_keep_deferred))                                                /*@ob C05,C08.deferred-events-dropped-only-without-history */
 ;
+
+/* ---- start() / start(evt) / stop() (root machine) ---- */
+extern const int g_init_ids[NR_CAP];     /* ids of Derived::initial_state, region order (compile time) */
+void init_states_foreach(fsm_t* self)    /* mpl::for_each<seq_initial_states>(init_states(m_states)) [A: assigns the initial state ids in region order] */
+__CPROVER_requires(g_seq == 0)
+__CPROVER_assigns(g_seq, __CPROVER_object_upto(self->m_states, sizeof(self->m_states)))
+__CPROVER_ensures(g_seq == 1 && self->m_states[g_k] == g_init_ids[g_k])
+;
+void call_init_foreach(fsm_t* self, event_t evt)   /* mpl::for_each<initial_states>(call_init<Event>(evt,this)) : entry of every region's initial state, region order */
+__CPROVER_requires(g_seq == 2 && g_entry_next == 0 && !g_exc)                     /*@ob C02.substates-entered-after-the-machines-own-entry */
+__CPROVER_requires(g_no_msg_queue || self->m_event_processing)                   /*@ob C04.entry-behaviours-run-with-the-busy-mark-set */
+__CPROVER_requires(self->m_states[g_k] == g_init_ids[g_k])                       /*@ob C03.start-enters-the-initial-configuration */
+__CPROVER_assigns(g_entry_next, g_exc)
+__CPROVER_ensures(!g_exc ==> g_entry_next == nr_regions)
+;
+static event_t fsm_initial_event(void) { return g_evt; }
+static event_t fsm_final_event(void) { return g_evt; }
+void start_unit(fsm_t* self, event_t incomingEvent)
+__CPROVER_requires(REGIONS_OK && __CPROVER_is_fresh(self, sizeof(*self)) && self == g_self && g_seq == 0 && g_entry_next == 0 && !g_exc && EV_EQ_U(incomingEvent, g_evt) && !incomingEvent.wrapped && !g_evt.wrapped)
+__CPROVER_requires(!self->m_event_processing)
+__CPROVER_assigns(g_seq, g_entry_next, g_exc, __CPROVER_object_upto(self->m_states, sizeof(self->m_states)))
+__CPROVER_ensures(self->m_states[g_k] == g_init_ids[g_k])                                                      /*@ob C03.start-enters-the-initial-configuration */
+__CPROVER_ensures(!g_exc ==> (g_entry_next == nr_regions && g_seq == 3))                                      /*@ob C02,C10.own-entry-then-initial-entries-then-completion-event */
+;
+void do_exit_stub(fsm_t* self, event_t evt, fsm_t* fsm)
+__CPROVER_requires(self == fsm && g_seq == 0)
+__CPROVER_assigns(g_seq)
+__CPROVER_ensures(g_seq == 2)
+;
+void stop_unit(fsm_t* self, event_t finalEvent)
+__CPROVER_requires(__CPROVER_is_fresh(self, sizeof(*self)) && g_seq == 0)
+__CPROVER_assigns(g_seq)
+__CPROVER_ensures(g_seq == 2)                                                                                   /*@ob C03.stop-exits-the-active-configuration-once */
+;
